@@ -662,6 +662,7 @@ func (ab *dsAddrBook) setAddrs(p peer.ID, addrs []ma.Multiaddr, ttl time.Duratio
 			return false
 		}
 		if pending {
+			delete(addrsMap, string(entries[victim].Addr))
 			entries = slices.Delete(entries, victim, victim+1)
 			return true
 		}
@@ -692,6 +693,8 @@ func (ab *dsAddrBook) setAddrs(p peer.ID, addrs []ma.Multiaddr, ttl time.Duratio
 				Expiry: newExp,
 			}
 			entries = append(entries, entry)
+			// a later occurrence of the same addr in this call updates this entry
+			addrsMap[string(entry.Addr)] = entry
 			if incomingIsUnconnected {
 				unconnectedCount++
 			}
